@@ -8,6 +8,7 @@ import (
 	"fmt"
 	"sort"
 	"strings"
+	"time"
 
 	"storj.io/drpc"
 	"storj.io/drpc/drpcconn"
@@ -30,10 +31,17 @@ type Config struct {
 	WriterBuf   int
 	ManualFlush bool
 	MaxBuf      int // reader MaximumBufferSize (0 = default)
+	// Inactivity arms the server manager's InactivityTimeout: a virtual timer that may fire at
+	// any point while the server waits for the next invoke.
+	Inactivity bool
 }
 
 func (c Config) String() string {
-	return fmt.Sprintf("soft=%v cap=%d rmax=%d split=%d wbuf=%d mf=%v", c.Soft, c.Pipe.Cap, c.Pipe.ReadMax, c.SplitSize, c.WriterBuf, c.ManualFlush)
+	s := fmt.Sprintf("soft=%v cap=%d rmax=%d split=%d wbuf=%d mf=%v", c.Soft, c.Pipe.Cap, c.Pipe.ReadMax, c.SplitSize, c.WriterBuf, c.ManualFlush)
+	if c.Inactivity {
+		s += " inactivity-timeout"
+	}
+	return s
 }
 
 func (c Config) manager() drpcmanager.Options {
@@ -103,7 +111,11 @@ func NewEnv(cfg Config, h HandlerFunc) *Env {
 	env := &Env{Cfg: cfg, Entered: map[string]int{}, Returned: map[string]int{}, Facts: map[string]any{}}
 	env.Cli, env.Srv = tr.New("cli", "srv", cfg.Pipe)
 	sched.Cur().State()["env"] = env
-	env.Server = drpcserver.NewWithOptions(handler{env: env, f: h}, drpcserver.Options{Manager: cfg.manager()})
+	smo := cfg.manager()
+	if cfg.Inactivity {
+		smo.InactivityTimeout = time.Minute
+	}
+	env.Server = drpcserver.NewWithOptions(handler{env: env, f: h}, drpcserver.Options{Manager: smo})
 	env.SCtx, env.SCancel = context.WithCancel(context.Background())
 	vs.Go("serveone", func() {
 		env.ServeErr = env.Server.ServeOne(env.SCtx, env.Srv)
